@@ -728,12 +728,20 @@ static void unit(uint64_t u) {
   if (u < dfs_units13) { vf_dfs_unit(&VF_SIGMA, vf_tier ? 4 : 3, u, CBOR_MAX_STACK_SIZE, 64 * 1024, pipe_seq_cb, NULL); return; }
   u -= dfs_units13;
   if (u < dfs_units13) { vf_dfs_unit(&VF_SIGMA, vf_tier ? 4 : 3, u, CBOR_MAX_STACK_SIZE, 64 * 1024, noalloc_seq_cb, NULL); return; }
-  noalloc_encoders();
+  u -= dfs_units13;
+  if (u == 0) { noalloc_encoders(); return; }
+  u -= 1;
+  { /* boundary corpus through the pipeline (wide containers, growth steps, nesting at and beyond the limit) */
+    size_t n;
+    const uint8_t* b = vf_corpus_item(u, &n, NULL);
+    if (alloc_config == 1 && n > 20000) return; /* the 1 MiB arena cannot hold the largest items */
+    pipe_input(b, n);
+  }
 #endif
 }
 static uint64_t units(void) {
 #if PROP == 13
-  return nparts + 2 * dfs_units13 + 1;
+  return nparts + 2 * dfs_units13 + 1 + vf_corpus_count();
 #else
   return nparts;
 #endif
@@ -747,6 +755,7 @@ static void init(void) {
 #endif
 #if PROP == 13
   vf_enum_init();
+  vf_corpus_init();
   vf_sets_init();
   devnull = fopen("/dev/null", "w");
   dfs_units13 = vf_dfs_units(&VF_SIGMA);
